@@ -7,6 +7,7 @@ R: every terminal state -> two physically different data directories (file numbe
    VarInt values up to 2^64-1 through the real read_varint (driver) against the encoder
 T: random layouts with up to hundreds of files, traces validated against BlockParser.tla (file/offset/hash of every fetch)
 """
+import os
 import random
 
 from lib import btc, chains, layout, run, tracecheck
@@ -19,6 +20,14 @@ def replay(w, obs, rng, coin, h0, variant):
     used = set(placement)
     decoys = [(f, s) for f in {p[0] for p in placement} for s in (1, 2, 3, 4) if (f, s) not in used] if obs['decoy'] else []
     d = layout.materialise(w.sub('dd'), blocks, placement, rng, coin=coin, h0=h0, decoys=decoys, extra_file=obs['extra'])
+    if variant == 1 and rng.random() < 0.35:
+        # blk files kept on other storage and linked into the directory (absolute symbolic links)
+        cold = d.path + '-cold'
+        os.makedirs(cold)
+        for f in sorted(os.listdir(d.path)):
+            if f.startswith('blk') and f.endswith('.dat') and f[3:-4].isdigit() and rng.random() < 0.7:
+                os.rename(os.path.join(d.path, f), os.path.join(cold, f))
+                os.symlink(os.path.join(cold, f), os.path.join(d.path, f))
     r = layout.run_csv(w, d, coin, obs['start'], obs['end'], h0=h0)
     probs = []
     if r.rc != obs['exit']:
